@@ -46,9 +46,7 @@ func runRandomL1(rep *Report, tt *termTable, seed uint64, firstID, n, length int
 				errK[o.Kind] = true
 			}
 		}
-		for _, m := range mons {
-			m(rep, c)
-		}
+		runL1Monitors(rep, c, seed*100000+uint64(k), mons) // monitors + minimisation of a failing history
 		rep.Ops += len(c.Ops)
 		nontrivial := true
 		for _, kd := range kindsOfInterest {
